@@ -3,9 +3,13 @@
   Model: Model/Ledger.lean (reference counts with the owners as ghost state), tied to message.go by the statement
   lists of Free / Clone / MakeUnique / Dup / NewMessage regenerated on every run (Obl/Msg.lean) and by the `m.ledger`
   correspondence (random operation sequences on real messages, cmd/corr/c17.go).  What the library's own code does
-  with messages is observed by the verif-tag ledger in message.go and by application-side checks (not proved).
+  with the messages it holds in local variables is decided function by function: Model/Own.lean (ownership IR, verified
+  reference-balance checker) over the IR regenerated from every function on every run (cmd/owngen, Obl/Own.lean).  The
+  messages REQ / REP / SURVEYOR keep in struct fields are followed by their machines and observed by the verif-tag
+  ledger in message.go and by application-side checks.
 -/
 import Model.LedgerLemmas
+import Model.Own
 namespace Props.C17
 open Model Model.Ledger
 
@@ -154,5 +158,42 @@ example :
     let s1 := (step s (.makeUnique 1 1 none)).1
     let s2 := (step s1 (.write 1 2 [42])).1
     (Ledger.get s2 1).map (·.body) = some [] ∧ (Ledger.get s2 2).map (·.body) = some [42] ∧ (Ledger.get s2 1).map (·.owners) = some [2] := by decide
+
+/-- the library's side of the discipline, function by function: a function whose ownership IR the checker accepts
+    never, in any execution (any branch, any number of loop iterations, any outcome of the calls that can fail),
+    releases a reference it does not hold through that variable, nor touches a message through a variable that is
+    nil or whose last reference it has given up; it ends by return or fall-through, and a return of a kind for which
+    the contract names a variable (the error return of every Send: the caller's message) leaves that variable non-nil
+    and still standing for its reference.  `Obl.Own.all_meet` evaluates the checker on the IR of every function of the
+    library that handles a message, regenerated from the source on every run. -/
+theorem accepted_function_keeps_the_discipline (f : Own.Fn) (hb : f.meets = true) (o : Own.Out)
+    (hex : Own.Exec f.body f.entry o) :
+    ∃ σ e, o = .ok σ e ∧ Own.Leaves f.exits σ e :=
+  Own.meets_sound f hb o hex
+
+/-- "Send … on failure leaves the message with the caller", for an accepted Send-shaped function (parameter 0 is the
+    message, contract `[[], [(0, 1)]]`): an execution that ends in an error return still holds the caller's reference -/
+theorem failed_send_leaves_the_message (f : Own.Fn) (hb : f.meets = true) (hx : f.exits = [[], [(0, 1)]])
+    (σ : Own.St) (hex : Own.Exec f.body f.entry (.ok σ (.ret 1))) :
+    σ.isNil 0 = false ∧ 1 ≤ σ.count 0 := by
+  obtain ⟨σ', e, heq, k, req, hk, hreq, hall⟩ := Own.meets_sound f hb _ hex
+  cases heq
+  rcases hk with ⟨h, _⟩ | h
+  · cases h
+  · cases h
+    rw [hx] at hreq
+    simp at hreq
+    subst hreq
+    exact hall (0, 1) (by simp)
+
+/-- non-vacuity: the fan-out Send shape (PUB / BUS / STAR / SURVEYOR: clone per peer, queue or free, free the caller's
+    reference, `return nil`; `return ErrClosed` first) is accepted, and has an execution that ends in the error return -/
+example : (Own.Fn.meets { name := "", vars := ["m", "err"], entry := Own.st1 1 false, exits := [[], [(0, 1)]], body := Own.fanoutOK }) = true ∧
+    Own.Exec Own.fanoutOK (Own.st1 1 false) (.ok (Own.st1 1 false) (.ret 1)) := by
+  refine ⟨by decide, ?_⟩
+  unfold Own.fanoutOK
+  exact .seqE _ _ _ _ _ (by simp) (.iteL _ _ _ _ (.ret 1 _))
+/-- the same shape with the message freed on the error path too is refused -/
+example : (Own.Fn.meets { name := "", vars := ["m", "err"], entry := Own.st1 1 false, exits := [[], [(0, 1)]], body := Own.fanoutErrFree }) = false := by decide
 
 end Props.C17
